@@ -26,10 +26,17 @@
     [C04_map_stable_decidable]), i.e. for pages outside the recursive slot 511 of a tree-shaped table hierarchy, the
     domain of C04's theorems.  Outside it (e.g. mapping a page of slot 511, see the examples) the Go code saws off the
     branch it sits on: the next dereference faults, where the hand-written model carries on.
-    Statements only; proofs are in Vmm/MapTrans.v. *)
+    [C04_map_is_translation_inv] / [C04_map_temporary_is_translation_inv] discharge the side condition IN GENERAL on the
+    domain of C04's theorems: for every state satisfying the invariant [Inv] (tree-shaped hierarchy with the recursive
+    slot, fresh allocator frames) and every page outside the recursive window ([hw_idx page 0 <> 511]) the regenerated
+    Map equals the model's [map_page] - no per-state check.  OUTSIDE that domain the Go code re-resolves the entry
+    pointer after each store while the model resolves it once; the examples keep the differing case (the page of
+    pdtVirtualAddr itself).
+    Statements only; proofs are in Vmm/MapTrans.v and Vmm/StableInv.v. *)
 From Coq Require Import NArith String List.
 From FF Require Import Lib.Word Lib.GoOps Gen.Consts_mm_vmm Gen.Trans_vmm_map Vmm.Pt Vmm.PtAccess.
-From FF Require Vmm.MapTrans Vmm.PdtTrans.
+From FF Require Vmm.MapTrans Vmm.PdtTrans Vmm.StableInv.
+From FF Require Import Vmm.PtMap.
 Module M := FF.Vmm.MapTrans.
 Module T := FF.Vmm.PdtTrans.
 Import ListNotations.
@@ -105,3 +112,33 @@ Theorem C04_map_stable_decidable :
     M.map_stable go_levels 0 vmm_pdtVirtualAddr (frame_addr page) s.
 Proof. intros page s. apply M.map_stable_b_ok. Qed.
 Print Assumptions C04_map_stable_decidable.
+
+(** the same on the whole domain of C04_map_ok: the invariant and a page outside the recursive window *)
+Theorem C04_map_is_translation_inv :
+  forall (s : st) (A T : N) (own : PtTree.ownmap) (page frame flags : N) (tr0 : list gcall),
+    Inv s A T own -> hw_idx page 0 <> 511 -> flags < two64 -> T.mem_w64 s ->
+    M.wmem (go_vmm_Map (mk_go_vmm_world tr0 s) page frame flags T.o_flush T.o_memset M.o_alloc M.o_id) =
+    match map_page page frame flags s with
+    | Stray => GPanic
+    | Ok (s', e) => GOk (s', T.err_of e)
+    end.
+Proof. exact StableInv.map_is_translation_inv. Qed.
+Print Assumptions C04_map_is_translation_inv.
+
+Theorem C04_map_temporary_is_translation_inv :
+  forall (s : st) (A T : N) (own : PtTree.ownmap) (frame : N) (tr0 : list gcall),
+    Inv s A T own -> T.mem_w64 s ->
+    M.wmem (go_vmm_MapTemporary (mk_go_vmm_world tr0 s) frame T.o_flush T.o_memset M.o_alloc M.o_id) =
+    match map_temporary frame s with
+    | Stray => GPanic
+    | Ok (s', e, p) => GOk (s', (p, T.err_of e))
+    end.
+Proof. exact StableInv.map_temporary_is_translation_inv. Qed.
+Print Assumptions C04_map_temporary_is_translation_inv.
+
+Theorem C04_map_stable_inv :
+  forall (s : st) (A T : N) (own : PtTree.ownmap) (page : N),
+    Inv s A T own -> hw_idx page 0 <> 511 ->
+    M.map_stable go_levels 0 vmm_pdtVirtualAddr (frame_addr page) s.
+Proof. intros s A T own page. apply StableInv.map_stable_inv. Qed.
+Print Assumptions C04_map_stable_inv.
